@@ -30,6 +30,10 @@ func runC02(c *Ctx) {
 	r.NotCovered = append(r.NotCovered, "transceiver / ICE / media-engine state after a rollback", "SetRemoteDescription(rollback) with unparsable or empty SDP (the SDP parser is outside the module)")
 	r.Trusted = append(r.Trusted, "transcribed JSEP rollback rows", "absint soundness on the supported fragment")
 
+	r.Rule("C02.R4", "a rollback is applied only through the guarded transition: the description fields, signalingState.Set and onSignalingStateChange are written/called only in setDescription (shared who-may-write rule of C01.R3 / C03.R3): no entry point handles rollback on a side path that skips the state test or forgets a pending description", 17)
+	if setDesc := c.mustFunc("C02.R4", "", "PeerConnection.setDescription"); setDesc != nil {
+		whoMayWriteNegotiationState(c, "C02.R4", setDesc)
+	}
 	check := c.mustFunc("C02.R1", "", "checkNextSignalingState")
 	if check == nil {
 		return
